@@ -15,6 +15,11 @@ Tie to the source:
   re.search semantics, ordered dispatch, get_version, load_matchfile; Model/C07_Up.v: to_v1 of info / meta
   lines); correspondence on every generated line, on lines with kind identifiers inside their identifiers,
   on written files and on version texts.
+* KEY SIGNATURES AS AN ALGORITHM (round j): MAJOR_KEYS / MINOR_KEYS, key_signature_pattern, pitch_class_pattern and
+  attribute_list_pattern are reflected into Gen/C07_KeyCfg.v (Model/C07_Key.v: key_name_to_fifths_mode, the order of the three
+  readers of _parse_key_signature, interpret_as_list, from_string, __str__ in every spelling); run_keys_code: the formatters on
+  generated objects vs key_str, interpret_as_key_signature on written texts, variants of them and texts that are no key vs
+  key_from_string.
 """
 import contextlib
 import copy
@@ -868,6 +873,251 @@ def gen_parsers():
     return PL
 
 
+# ----------------------------------------------------------------------------
+# round j: the key-signature reader / writer as an algorithm (Model/C07_Key.v): MAJOR_KEYS, MINOR_KEYS and the three
+# regular expressions it uses are reflected into Gen/C07_KeyCfg.v (fail closed: via the parse tree of Python's re)
+
+_WS = " \t\n\r\x0b\x0c"
+
+
+def _in_chars(av):
+    import re._constants as RC
+    chars = ""
+    for op, a in av:
+        if op is RC.LITERAL:
+            chars += chr(a)
+        elif op is RC.RANGE:
+            chars += "".join(chr(c) for c in range(a[0], a[1] + 1))
+        elif op is RC.CATEGORY and a is RC.CATEGORY_SPACE:
+            chars += _WS
+        else:
+            raise ValueError("unsupported class member %r" % ((op, a),))
+    return chars
+
+
+def _rep_item(node):
+    """(MAX_REPEAT (min, MAXREPEAT, [IN ..] | [LITERAL] | [ANY])) -> ("grp", kind, chars, min)"""
+    import re._constants as RC
+    op, av = node
+    if op is not RC.MAX_REPEAT or av[1] is not RC.MAXREPEAT or av[0] not in (0, 1) or len(av[2]) != 1:
+        raise ValueError("unsupported repetition %r" % (node,))
+    bop, bav = av[2][0]
+    if bop is RC.IN:
+        if bav and bav[0][0] is RC.NEGATE:
+            return ("grp", "not", _in_chars(bav[1:]), av[0])
+        return ("grp", "in", _in_chars(bav), av[0])
+    if bop is RC.LITERAL:
+        return ("grp", "in", chr(bav), av[0])
+    if bop is RC.ANY:
+        return ("grp", "any", "", av[0])
+    raise ValueError("unsupported repetition body %r" % (node,))
+
+
+def first_then_reps(pat):
+    """a pattern of the form (one character of a class, captured)(greedy repetitions, captured or not)*:
+    (class chars, items, captured flags); anything else -> ValueError"""
+    import re._parser as RP
+    import re._constants as RC
+    if pat.flags & ~re.UNICODE:
+        raise ValueError("flags")
+    tree = list(RP.parse(pat.pattern))
+    op, av = tree[0]
+    if op is not RC.SUBPATTERN or len(av[3]) != 1 or av[3][0][0] is not RC.IN:
+        raise ValueError("the pattern does not start with one captured character of a class: %r" % pat.pattern)
+    first = _in_chars(av[3][0][1])
+    items, caps = [], []
+    for op, av in tree[1:]:
+        if op is RC.SUBPATTERN:
+            if len(av[3]) != 1:
+                raise ValueError("unsupported group %r" % (av,))
+            items.append(_rep_item(av[3][0]))
+            caps.append(True)
+        else:
+            items.append(_rep_item((op, av)))
+            caps.append(False)
+    return first, items, caps
+
+
+def cstr_any(t):
+    """a Coq string term for any text of 8-bit characters"""
+    if all(32 <= ord(c) < 127 for c in t):
+        return cstr(t)
+    return "(str_of_codes %s)" % clist(str(ord(c)) + "%nat" for c in t)
+
+
+def c_rpat_any(items):
+    out = []
+    for _, kind, chars, minlen in items:
+        cl = "RAnyC" if kind == "any" else "(%s %s)" % ("RNot" if kind == "not" else "RIn", cstr_any(chars))
+        out.append("RGrp %s %d" % (cl, minlen))
+    return clist(out)
+
+
+def gen_keycfg():
+    L0, L1, U, B, IM = mods()
+    from partitura.utils import music as M
+    f1, t1, c1 = first_then_reps(U.key_signature_pattern)
+    f2, t2, c2 = first_then_reps(U.pitch_class_pattern)
+    if not all(c2) or len(t2) != 1 or sum(c1) != 5:
+        raise ValueError("the groups of key_signature_pattern / pitch_class_pattern changed")
+    anch, li, names = regex_items(U.attribute_list_pattern.pattern)
+    if not anch or names != ["attributes"]:
+        raise ValueError("attribute_list_pattern changed its form")
+    L = ["(* GENERATED by harness/props/c07.py from the working tree -- do not edit *)",
+         "From Coq Require Import ZArith List String.", "From PV Require Import Model.C07 Model.C07_Disp Model.C07_Key.",
+         "Import ListNotations.", "Open Scope string_scope.", "Open Scope Z_scope.", ""]
+    L.append("Definition key_cfg : keycfg := mk_keycfg\n  %s\n  %s\n  %s\n  %s\n  %s\n  %s\n  %s\n  %s." % (
+        clist(cstr(k) for k in M.MAJOR_KEYS), clist(cstr(k) for k in M.MINOR_KEYS), cstr_any(f1), c_rpat_any(t1), clist(cbool(c) for c in c1),
+        cstr_any(f2), c_rpat_any(t2), c_rpat(li)))
+    core.write_gen("C07_KeyCfg", "\n".join(L) + "\n")
+
+
+# ----------------------------------------------------------------------------
+# round j stream: key signatures through the ALGORITHM model (Model/C07_Key.v).  Texts of every spelling as written, the same with
+# blanks around the separators, other mode words / letter cases / accidental spellings of the older formats, lists of several
+# keys, and short texts over the alphabet of the format that are no key at all (where the implementation raises the model must
+# fail).  The implementation's answer to every text comes from interpret_as_key_signature, every written text from the formatter
+# of the spelling; key_read_check / key_write_check evaluate the model on the same inputs inside Coq.
+
+KEYFMT_FUNS = {0: ("format_key_signature_v0_1_0", False), 1: ("format_key_signature_v0_3_0", False),
+               2: ("format_key_signature_v0_3_0_list", True), 3: ("format_key_signature_v1_0_0", False)}
+KEY_GARBAGE = "ABCDEFGHabcdgmn#b/ ,[]xMij"
+
+
+def key_obs(p):
+    """(key1 term, [key1 terms]) of a parsed MatchKeySignature, Mismatch when a field is no int / mode word"""
+    if not isinstance(p.fifths, int) or (p.fifths_alt is not None and not isinstance(p.fifths_alt, int)):
+        raise Mismatch("fifths")
+    comps = []
+    for c in p.other_components:
+        if not isinstance(c.fifths, int) or c.other_components:
+            raise Mismatch("component")
+        comps.append(c_key1(c))
+    return "(%s, %s)" % (c_key1(p), clist(comps))
+
+
+def key_variants(rng, U, k, fmt, text):
+    """texts that should be read as the same key (kind of variant, text)"""
+    out = []
+    pad = lambda: rng.choice(["", " ", "  ", "\t"]) if rng.random() < 0.7 else ""
+    if fmt == 3:
+        out.append(("v1_blanks", pad() + (pad() + "/" + pad()).join(text.split("/")) + pad()))
+        out.append(("v1_lower_case", text.lower()))
+        out.append(("v1_in_brackets", "[" + text + "]"))
+    elif fmt in (1, 2):
+        t = text
+        for a, bs in (("Maj", ["major", "Major", "MAJ", "maj", "Dur"]), ("min", ["minor", "Minor", "MIN", "Min", "m"])):
+            if a in t and rng.random() < 0.8:
+                t = t.replace(a, rng.choice(bs), 1 if rng.random() < 0.5 else -1)
+        out.append(("old_mode_words", t))
+        out.append(("old_blanks", text.replace(" ", rng.choice(["", "  ", " \t"])).replace("/", rng.choice([" /", "/ ", "//", " / "]))))
+        if fmt == 2:
+            out.append(("old_text_after_bracket", text + rng.choice(["x", " ", "]", ".", ",C Maj"])))
+    else:
+        name, _, mode = text[1:-1].partition(",")
+        nm = rng.choice([name, name.upper(), name.replace("n", ""), name[0].upper() + name[1:], " " + name + " ", name + "n"])
+        md = rng.choice([mode, mode.capitalize(), mode.upper(), mode[:3], mode[:3].capitalize(), " " + mode])
+        out.append(("v01_spellings", "[%s,%s]" % (nm, md)))
+        out.append(("v01_without_brackets", "%s,%s" % (nm, md)))
+    return out
+
+
+def run_keys_code(ctx):
+    L0, L1, U, B, IM = mods()
+    rng = ctx.rng
+    quick = ctx.tier == "quick"
+    wterms, wkept, rterms, rkept = [], [], [], []
+    seen = set()
+
+    def read_case(kind, text):
+        if text in seen or any(not (32 <= ord(c) < 127 or c == "\t") for c in text):
+            return None
+        seen.add(text)
+        ctx.evaluations += 1
+        try:
+            with contextlib.redirect_stdout(io.StringIO()):
+                p = U.interpret_as_key_signature(text)
+        except Exception as e:
+            p = None
+        try:
+            obs = None if p is None else key_obs(p)
+        except Mismatch:
+            ctx.count("keys_code:read_result_outside_the_model(%s)" % kind)
+            return p
+        ctx.count("keys_code:read:%s" % kind)
+        ctx.count("keys_code:read_%s" % ("raises_or_none" if p is None else
+                                         "pair_with_components" if p.fifths_alt is not None and p.other_components else
+                                         "pair" if p.fifths_alt is not None else "with_components" if p.other_components else "single"))
+        rterms.append("(%s, %s)" % (cstr_any(text), "None" if obs is None else "(Some %s)" % obs))
+        rkept.append({"kind": "key_code", "what": "read", "variant": kind, "text": text})
+        ctx.nontrivial(("key_code", text))
+        return p
+
+    objs = []
+    for fmt in (0, 1, 2, 3):
+        for f in range(-7, 8):
+            for mi in ("major", "minor"):
+                objs.append((fmt, [f, mi, None, None], []))
+        if fmt:
+            for _ in range(40 if quick else 600):
+                k = g_key1(rng, True)
+                k = [k[0], "minor" if k[1] else "major", k[2] if k[2] is not None else rng.randint(-7, 7), "minor" if k[3] else "major"]
+                comps = []
+                if fmt == 2 and rng.random() < 0.5:
+                    for _ in range(rng.randint(1, 2)):
+                        c = g_key1(rng, True)
+                        comps.append([c[0], "minor" if c[1] else "major", c[2], None if c[2] is None else ("minor" if c[3] else "major")])
+                objs.append((fmt, k, comps))
+    for fmt, k, comps in objs:
+        fname, isl = KEYFMT_FUNS[fmt]
+        mk = lambda: U.MatchKeySignature(k[0], k[1], k[2], k[3], other_components=[U.MatchKeySignature(*c) for c in comps])
+        ctx.evaluations += 1
+        try:
+            text = getattr(U, fname)(mk())
+        except Exception as e:
+            text = None
+        ctx.count("keys_code:write:spelling_%d%s%s" % (fmt, "_pair" if k[2] is not None else "", "_with_components" if comps else ""))
+        wterms.append("(%s, %s, %s, %s, %s)" % (cz(fmt), cbool(isl), c_key1(mk()), clist(c_key1(U.MatchKeySignature(*c)) for c in comps), copt(text, cstr_any)))
+        wkept.append({"kind": "key_code", "what": "write", "fmt": fmt, "key": k, "components": comps, "text": text})
+        if text is None:
+            ctx.violation("key signature %r cannot be written in spelling %d" % (k, fmt), wkept[-1])
+            continue
+        p = read_case("as_written_spelling_%d" % fmt, text)
+        for kind, t in key_variants(rng, U, k, fmt, text):
+            q = read_case(kind, t)
+            if kind == "v1_blanks" and q is not None and p is not None:
+                # direct oracle (theorem key_v1_text_fixpoint): blanks around plain 1.0.0 names change nothing
+                try:
+                    again = U.format_key_signature_v1_0_0(q)
+                except Exception as e:
+                    again = "<%r>" % (e,)
+                if not (q == p and again == text):
+                    ctx.count("keys_code:oracle_complaints")
+                    if ctx.counts["keys_code:oracle_complaints"] <= 5:
+                        ctx.violation("key signature text %r (the 1.0.0 names %r with blanks) is read as %s, written again as %r" % (
+                            t, text, (q.fifths, q.mode, q.fifths_alt, q.mode_alt), again), {"kind": "key_code", "what": "read", "variant": kind, "text": t})
+    for _ in range(250 if quick else 4000):
+        n = rng.choice([0, 1, 1, 2, 2, 3, 3, 4, 5, 6, 8])
+        read_case("short_text_over_the_alphabet", "".join(rng.choice(KEY_GARBAGE) for _ in range(n)))
+    if not wterms:
+        return
+    imp = "From PV Require Import Model.C07 Model.C07_Disp Model.C07_Key Gen.C07_KeyCfg."
+    failing = ctx.coq_failing("keyw", imp, "", wterms, "key_write_check key_cfg", shard=400, ty="Z * bool * key1 * list key1 * option string")
+    ctx.obligation("correspondence: the key-signature writer of the model (Model/C07_Key.v key_str: key lists indexed by fifths + 7, the three spellings, "
+                   "alternative key, list form with components) = the formatters of matchfile_utils on %d objects" % len(wterms), not failing, failing[:5])
+    for i in failing[:5]:
+        ctx.violation("model and implementation disagree on the text of key signature %r in spelling %d: %r" % (wkept[i]["key"], wkept[i]["fmt"], wkept[i]["text"]), wkept[i])
+    failing = ctx.coq_failing("keyr", imp, "", rterms, "key_read_check key_cfg", shard=400, ty="string * option (key1 * list key1)")
+    ctx.obligation("correspondence: the key-signature reader of the model (key_from_string: interpret_as_list, the 0.1.0 form, plain 1.0.0 names before the "
+                   "regular expression of the older formats searched with backtracking before the upper-case fallback, key_name_to_fifths_mode) = "
+                   "interpret_as_key_signature on %d texts (fields, alternative, components; raises where the model fails)" % len(rterms), not failing, failing[:5])
+    # the statement speaks of the key names in every historical spelling: the texts as written and plain 1.0.0 names with blanks
+    # (theorem key_v1_text_fixpoint).  On other mode words, letter cases, doubled separators and texts that are no key at all a
+    # disagreement is model drift (failed obligation), not a violation of the property.
+    for i in [i for i in failing if rkept[i]["variant"].startswith("as_written") or rkept[i]["variant"] == "v1_blanks"][:5]:
+        ctx.violation("model and implementation disagree on what the key signature text %r is read as" % rkept[i]["text"], rkept[i])
+
+
 def gen():
     core.setup_import_path()
     S = schemas()
@@ -888,6 +1138,7 @@ def gen():
     core.write_gen("C07_Schemas", "\n".join(L) + "\n")
     global _PARSERS
     _PARSERS = gen_parsers()
+    gen_keycfg()
     return S, rows
 
 
@@ -3186,12 +3437,17 @@ def run(ctx):
                 "one parsed object is edited in place (list methods, components of durations and signatures) or a field is assigned, the lines are parsed again, "
                 "pre-1.0 lines are converted, the copy edited, the text parsed and converted again, a closing probe edits any object two fields hold in common; "
                 "after every step every live object is judged from its own text and its own edits (each distinct history counts as non-trivial).  File histories: "
-                "load, edit the loaded lines, load again, other lines to the same path, load; 1.0.0 then 0.1.0 without version line.")
+                "load, edit the loaded lines, load again, other lines to the same path, load; 1.0.0 then 0.1.0 without version line.  "
+                "Key signatures through the algorithm model: all 30 keys x the four formatters + random pairs (list form 50% with 1-2 components) written; "
+                "every written text and per text variants (blanks / tabs around parts and separators, lower case, brackets, other mode words, doubled "
+                "separators, text after the bracket, 0.1.0 with other letter cases / without n / short mode words / without brackets) and 250 (quick) short "
+                "texts over the alphabet of the format that are mostly no key are read; every distinct text counts as non-trivial.")
     ctx.trusted = ["Coq 8.16.1 kernel incl. vm_compute", "reflector + generators + Python<->Coq value printers in harness/props/c07.py",
                    "Python re / str.format (the model's scanner is validated against them on generated lines only)",
                    "determinism of the tabulated key-signature functions",
                    "the fail-closed reader of the regular expressions (regex_items) and the hand-written structure in which every from_matchline "
-                   "method combines its patterns (parser_spec); both validated by the dispatch correspondence only"]
+                   "method combines its patterns (parser_spec); both validated by the dispatch correspondence only",
+                   "the reader of key_signature_pattern / pitch_class_pattern through the parse tree of Python's re module (first_then_reps, fail closed)"]
     ctx.assumptions = ["field texts are ASCII; strings are non-empty, stripped and free of the separators of their field (fields_ok)",
                        "floats of fixed-point fields are fed as the double nearest to a d-decimal number when 'equal fields' is demanded; "
                        "other floats (decimal boundaries, binary ties) are checked for the rounded value and the fixpoint only",
@@ -3213,7 +3469,7 @@ def run(ctx):
             ctx.violation("the line kind %s of format version %s is gone from the tables of the library" % (kind, ".".join(map(str, ver))),
                           {"kind": kind, "ver": list(ver), "what": "catalogue"}, no_input=True)
     ctx.log("reflection done")
-    ok, why = ctx.coq_props(expect_min=75)
+    ok, why = ctx.coq_props(expect_min=87)
     ctx.log("proofs checked")
     key_oracle(ctx, rows)
     rng = ctx.rng
@@ -3316,6 +3572,8 @@ def run(ctx):
     run_fracs(ctx, 600 if ctx.tier == "quick" else 12000)
     ctx.log("duration sums done")
     run_frac_programs(ctx, 300 if ctx.tier == "quick" else 6000)
+    run_keys_code(ctx)
+    ctx.log("key signatures through the algorithm model done")
     run_file_histories(ctx, good, 1 if ctx.tier == "quick" else 12)
     # last, because these histories EDIT parsed lines: whatever a defective parser keeps at module level must not reach the other streams
     run_parse_histories(ctx, kept, nhist)
@@ -3398,6 +3656,23 @@ def replay(obj):
         finally:
             os.remove(path)
             os.rmdir(d)
+    elif r.get("kind") == "key_code":
+        if r.get("what") == "write":
+            k, comps = r["key"], r.get("components", [])
+            o = U.MatchKeySignature(k[0], k[1], k[2], k[3], other_components=[U.MatchKeySignature(*c) for c in comps])
+            try:
+                print("%s(%r, components %r) = %r" % (KEYFMT_FUNS[r["fmt"]][0], k, comps, getattr(U, KEYFMT_FUNS[r["fmt"]][0])(o)))
+            except Exception as e:
+                print("%s(%r) raises %r" % (KEYFMT_FUNS[r["fmt"]][0], k, e))
+        else:
+            try:
+                q = U.interpret_as_key_signature(r["text"])
+                print("interpret_as_key_signature(%r) = %s" % (r["text"], None if q is None else (
+                    q.fifths, q.mode, q.fifths_alt, q.mode_alt, [(c.fifths, c.mode, c.fifths_alt, c.mode_alt) for c in q.other_components])))
+                if q is not None:
+                    print("written again in the 1.0.0 spelling: %r" % U.format_key_signature_v1_0_0(q))
+            except Exception as e:
+                print("interpret_as_key_signature(%r) raises %r" % (r["text"], e))
     elif r.get("kind") == "first_line":
         try:
             print("get_version(%r) = %s" % (r["text"], tuple(IM.get_version(r["text"]))))
